@@ -800,3 +800,56 @@ def facts_at(stmt, stop=None):
     for test, pol in guard_chain(stmt, stop=stop, implicit=True):
         add(test, pol)
     return out
+
+
+def passes_before(flow, first, later, assume, stop=()):
+    """Does every execution that reaches statement `later` under `assume` execute statement `first` before?  Structural
+    criterion: an ancestor of `first` is an earlier sibling of an ancestor of `later` (control flows through it), and inside
+    that ancestor `first` is executed under the assumptions (all of its guards decided in its favour, no loop / try in between)."""
+    def chain(st):
+        out = [st]
+        n = parent(st)
+        while n is not None and not isinstance(n, (ast.FunctionDef, ast.AsyncFunctionDef)):
+            out.append(n)
+            n = parent(n)
+        out.append(n)
+        return out
+    ca, cb = chain(first), chain(later)
+    for i, a in enumerate(ca[:-1]):
+        pa = ca[i + 1]
+        for j, b in enumerate(cb[:-1]):
+            if cb[j + 1] is pa and a is not b:
+                # a and b are children of the same node: same block, a earlier?
+                for fld in ("body", "orelse", "finalbody"):
+                    blk = getattr(pa, fld, None)
+                    if isinstance(blk, list) and any(x is a for x in blk) and any(x is b for x in blk):
+                        ia = [k for k, x in enumerate(blk) if x is a][0]
+                        ib = [k for k, x in enumerate(blk) if x is b][0]
+                        if ia >= ib:
+                            return False
+                        # inside a: first must be executed
+                        n = parent(first)
+                        child = first
+                        while child is not a:
+                            if isinstance(n, (ast.For, ast.While, ast.Try, ast.With)) and n is not a:
+                                return False
+                            child, n = n, parent(n)
+                        # guards of `first` INSIDE a (what precedes a concerns `later` just as much)
+                        child, n = first, parent(first)
+                        while child is not a:
+                            for fld2 in ("body", "orelse", "finalbody"):
+                                blk2 = getattr(n, fld2, None)
+                                if isinstance(blk2, list) and any(x is child for x in blk2):
+                                    for sib in blk2[:[k for k, x in enumerate(blk2) if x is child][0]]:
+                                        if isinstance(sib, ast.If) and not sib.orelse and ends_in_jump(sib.body) \
+                                                and flow.decide_under(sib.test, assume, at=sib.test, stop=stop) is not False:
+                                            return False
+                            if isinstance(n, ast.If):
+                                pol = any(child is x for x in n.body)
+                                if flow.decide_under(n.test, assume, at=n.test, stop=stop) != pol:
+                                    return False
+                            child, n = n, parent(n)
+                        # nothing inside a jumps past first before it ran (returns / raises in front of it under the assumptions)
+                        return True
+                return False
+    return False
